@@ -83,7 +83,7 @@ impl Grid {
         if self.scroll_bottom >= size.rows {
             self.scroll_bottom = size.rows - 1;
         }
-        if self.scroll_bottom < self.scroll_top {
+        if self.scroll_bottom <= self.scroll_top {
             self.scroll_top = 0;
         }
 
